@@ -64,6 +64,7 @@ type Loop struct {
 	Key         types.Object
 	Val         types.Object
 	Body        *ast.BlockStmt
+	Hard        bool // a problem that a reviewed exception does not cover
 	Effects     []string
 	Problem     []string // why it is not provably order-insensitive
 	Collect     []types.Object
@@ -680,6 +681,23 @@ func (c *bodyCtx) walk(stmts []ast.Stmt, joinTarget string) {
 					initStmt = prevStmt
 				}
 				c.effect("join(" + lastName(initStmt.(*ast.AssignStmt).Rhs[0]) + ")")
+				// the branch for an absent key stores the first contribution into that slot; if it stores nothing the
+				// slot stays absent and every later contribution takes the same branch: the key never gets a value
+				storesSlot := false
+				ast.Inspect(s.Body, func(n ast.Node) bool {
+					if as, ok := n.(*ast.AssignStmt); ok {
+						for _, l := range as.Lhs {
+							if ix, ok := l.(*ast.IndexExpr); ok && exprKey(ix) == target {
+								storesSlot = true
+							}
+						}
+					}
+					return true
+				})
+				if !storesSlot {
+					c.problem(s.Pos(), "the branch of the slot-wise maximum taken for an absent key stores nothing into "+target+": that key never receives a value")
+					c.l.Hard = true // not covered by a reviewed exception: the exception is about the order of the joins, not about a join that lost its first store
+				}
 				// the !ok branch: stores to the same slot (possibly under a further pure condition) and nothing else order-sensitive
 				c.walk(s.Body.List, target)
 				continue
